@@ -1,7 +1,8 @@
 #!/bin/bash
-# usage: tools/validate_seed.sh <Cxx> <i>   -- validates /tmp/seed/<Cxx>/seed/mutant<i>.diff in its scratch worktree
+# usage: [SEEDROOT=/tmp/seed2] tools/validate_seed.sh <Cxx> <i>   -- validates $SEEDROOT/<Cxx>/seed/mutant<i>.diff in its scratch worktree
+# (the demo packages under seed/ are excluded from the suite run: they are meant to fail with the mutant)
 # prints: <Cxx>-m<i> apply=ok build=ok tests=pass|FAIL demo_head=<rc> demo_mutant=<rc>
-P="$1"; I="$2"; W="/tmp/seed/$P"
+P="$1"; I="$2"; W="${SEEDROOT:-/tmp/seed}/$P"
 export GOFLAGS=-mod=mod GOPROXY=off GOSUMDB=off GOTOOLCHAIN=local
 cd "$W" || { echo "$P-m$I no-worktree"; exit 1; }
 git checkout -q -- . 2>/dev/null
@@ -14,7 +15,7 @@ git apply "seed/mutant$I.diff"
 B=ok; go build ./... 2>/dev/null || B=FAIL
 T=FAIL
 for k in 1 2 3; do
-  if go test -vet=off -count=1 ./... > "/dev/shm/seedval.$P.$I.test.log" 2>&1; then T=pass; break; fi
+  if go test -vet=off -count=1 $(go list ./... | grep -v /seed) > "/dev/shm/seedval.$P.$I.test.log" 2>&1; then T=pass; break; fi
   # only the two known flaky tests (or load-related runtime timeouts) may fail: retry
 done
 timeout 600 bash -c "$RUN" > "/dev/shm/seedval.$P.$I.mut.log" 2>&1; RM=$?
